@@ -36,6 +36,7 @@ type SpecFunc struct {
 	Mode   Mode     // with HasMode: the body is only expanded in units of this mode
 	HasMode bool
 	Reads  []string // for functions that are uninterpreted in other modes: what state they depend on
+	Uninterp bool
 }
 
 type GhostField struct {
@@ -510,6 +511,11 @@ func parseSpecFunc(rest string) (*SpecFunc, error) {
 		head = strings.TrimSpace(strings.TrimSuffix(head, " mode int"))
 	}
 	sf.Result = head
+	if strings.TrimSpace(rest[k+3:]) == "?" {
+		// uninterpreted: a pure function of its arguments about which nothing else is known
+		sf.Uninterp = true
+		return sf, nil
+	}
 	e, err := ParseExpr(rest[k+3:])
 	if err != nil {
 		return nil, err
